@@ -75,6 +75,15 @@ class Obligation(object):
         return True
 
 
+def _solver_wall():
+    """wall clock spent in solver batches by this check (its per-check budget is solve.BUDGET[tier]['check_s'])"""
+    try:
+        from . import solve
+        return round(solve._solver_wall[0], 1)
+    except Exception:
+        return None
+
+
 class Run(object):
     def __init__(self, prop, tier="quick", repo="/repo", seed=0, argv=None):
         self.prop = prop
@@ -274,6 +283,7 @@ class Run(object):
                 "functions_under_contract": sorted(self.functions),
                 "backends": backends,
                 "solver_time_s": round(sum(o.solver_s for o in self.obligations), 3),
+                "solver_batches_wall_s": _solver_wall(),
                 "covers": self.covers,
                 "engine_crosscheck": self.crosscheck,
                 "bounded": self.bounded,
